@@ -495,6 +495,31 @@ theorem schedule_contract {α : Type} (p : Prog Bytes α) (cfgs : List Bytes) (a
     show gen0 + _ < gen0 + _ + m
     omega
 
+/-- …and so does the cycling device used for update storms (any number of interrupted attempts in a
+row: `read_consistent` keeps retrying, it has no retry budget after which it would return an
+unvalidated read) -/
+theorem scheduleCyc_contract {α : Type} (p : Prog Bytes α) (cfgs : List Bytes) (at_ : List Nat) (gen0 m : Nat)
+    (hm : at_.length < m) :
+    Contract m p (scheduleCyc cfgs at_ gen0 m) (fun t => gen0 + (at_.filter (· ≤ t)).length) := by
+  refine ⟨?_, ?_, ?_, ?_⟩
+  · intro t
+    have := filter_le_mono at_ t
+    show gen0 + _ ≤ gen0 + _
+    omega
+  · intro t h
+    have hmono := filter_le_mono at_ t
+    show gen0 + _ < gen0 + _
+    apply Classical.byContradiction
+    intro hn
+    have heq : (at_.filter (· ≤ t)).length = (at_.filter (· ≤ t + 1)).length := by omega
+    apply h
+    simp only [scheduleCyc, heq]
+  · intro t; rfl
+  · intro t
+    have h1 := List.length_filter_le (· ≤ iterEnd p (scheduleCyc cfgs at_ gen0 m) t) at_
+    show gen0 + _ < gen0 + _ + m
+    omega
+
 /-! ### non-vacuity of the bounds part -/
 
 example : access ⟨.mmio, true, 8⟩ 0 4 4 4 = .ok [(4, 4)] := by decide
